@@ -75,4 +75,10 @@ theorem C13_can_no_lookahead (st : RxSt) (s t : List CanItem) :
       (shiftLeftCan t.length (canCalls st s).1 ++ (canCalls (canCalls st s).2 t).1, (canCalls (canCalls st s).2 t).2) :=
   Ross.canCalls_append st s t
 
+/-! non-vacuity (kernel-evaluated): the wire of packet `[1, 2, 3]` for device 9 with a would-block before it and one in
+the middle of the frame body — the first call finds nothing, the second waits the pause out and returns the packet -/
+example : usartPolls LinkSt.init ([.wouldBlock] ++ ([0x00, 0x09, 0x02, 0xc0, 0x01, 0x06, 0x09, 0x03, 0x01].map ByteItem.byte) ++
+      [.wouldBlock] ++ ([0x02, 0x03].map ByteItem.byte)) =
+    [.nothing, .emit (.packet ⟨false, 9, [1, 2, 3]⟩), .nothing] := by decide
+
 end Ross.Props
